@@ -79,17 +79,24 @@ func verifH_C11_ocra() {
 	r1copy := string(append([]byte{}, r1...))
 	secretB := verifSecretFor(keyB, false)
 	r2, e2 := GenerateOCRA(secretB, cfg, inB)
+	// once more after the pool has been poisoned again (natively with another byte pattern): the
+	// result for the same arguments must be the same, whatever the pooled buffer held
+	verifPoolAdversary(true)
+	secretB = verifSecretFor(keyB, false)
+	r2b, e2b := GenerateOCRA(secretB, cfg, inB)
 	verifEndOp()
 	verifObserve("r1", r1)
 	verifObserve("r2", r2)
 	if e1 != nil || e2 != nil {
 		return
 	}
+	verifAssert(e2b == nil && verifStrEq(r2, r2b), "same-arguments-same-result-whatever-the-pool-held")
 	verifAssert(verifStrEq(r1, r1copy), "returned-code-does-not-change-after-a-later-call")
 	verifAssert(verifFrameViolations() == 0, "writes-only-call-private-or-owned-pool-memory")
 	if verifSymbolic() {
-		verifAssert(verifHMACCount() == 2, "two-hmac")
-		if verifHMACCount() == 2 {
+		verifAssert(verifHMACCount() == 3, "one-hmac-per-call")
+		if verifHMACCount() == 3 {
+			verifAssert(verifBytesEq(verifHMACMsg(1), verifHMACMsg(2)), "same-arguments-same-message-whatever-the-pool-held")
 			// the second message (built in the same pooled buffer the first call used) carries nothing of the first call
 			verifAssert(!verifDependsOn(verifHMACMsg(1), "a."), "second-message-independent-of-first-call")
 			verifAssert(!verifDependsOn(verifHMACMsg(1), "pool_"), "second-message-independent-of-pool-content")
